@@ -137,3 +137,17 @@ def run(ctx) -> None:
     from . import c20
 
     c20._blocks(ctx, repo, repo.cls(c20.SCAN, "LineScan"), repo.cls(c20.SCAN, "GridScan"))
+
+
+# ---- added after the seeded change C19-r3seed4: blocks keep the receiver's ensemble_mean
+_inner_run_c19 = run
+
+
+def run(ctx) -> None:  # noqa: F811
+    from ..rules import blockflags
+
+    ctx.rule("R-BLOCKFLAGS", blockflags.__doc__.split("\n\n", 1)[1])
+    n = blockflags.check(ctx)
+    ctx.require(n >= 1, f"R-BLOCKFLAGS found no sub-distribution constructor in DistributionFromValues")
+    _inner_run_c19(ctx)
+
